@@ -52,6 +52,13 @@ Fixpoint assoc {A} (code : A -> Z) (k : A) (l : list (A * text)) : option text :
   | (k', t) :: r => if code k =? code k' then Some t else assoc code k r
   end.
 Definition bin_tok (o : binop) : option text := assoc binop_code o OpTables.bin.
+(* parser._emit_binop, as probed by the translator: (0, tok) infix, (1, name) helper call, (2, _) ValueError *)
+Fixpoint assoc2 {A B} (code : A -> Z) (k : A) (l : list (A * B)) : option B :=
+  match l with
+  | [] => None
+  | (k', t) :: r => if code k =? code k' then Some t else assoc2 code k r
+  end.
+Definition bin_form (o : binop) : option (Z * text) := assoc2 binop_code o OpTables.binemit.
 Definition un_tok (o : unop) : option text := assoc unop_code o OpTables.un.
 Definition cmp_tok (o : cmpop) : option text := assoc cmpop_code o OpTables.cmp.
 
@@ -209,7 +216,13 @@ Fixpoint to_c (G : tcx) (e : pexpr) {struct e} : tres cexpr :=
   | EBin op a b =>
       match bin_tok op with
       | None => Rejected
-      | Some tok => tbind (to_c G a) (fun a' => tbind (to_c G b) (fun b' => TOk (CBin tok a' b')))
+      | Some _ =>                    (* type(n.op) in _BIN; the operands are emitted first, then _emit_binop decides *)
+          tbind (to_c G a) (fun a' => tbind (to_c G b) (fun b' =>
+          match bin_form op with
+          | Some (0, tok) => TOk (CBin tok a' b')
+          | Some (1, f) => TOk (CCall f [a'; b'])
+          | _ => Rejected
+          end))
       end
   | EUn op a =>
       match un_tok op with
@@ -303,25 +316,12 @@ Definition is_floatv (v : pval) : bool := match v with VFloat _ => true | _ => f
 Definition is_strv (v : pval) : bool := match v with VStr _ => true | _ => false end.
 Definition is_boolv (v : pval) : bool := match v with VBool _ => true | _ => false end.
 
-(* C's truncating / and % agree with Python's flooring // and % *)
-Definition same_sign_or_exact (x y : Z) : bool :=
-  (Z.rem x y =? 0) || ((0 <=? x) && (0 <? y)) || ((x <=? 0) && (y <? 0)).
-
 (* the guard of one binary operator on numeric operands (int, bool, float) *)
 Definition op_guard (op : binop) (a b : pval) : bool :=
   match op with
   | Add | Sub | Mult => is_numv a && is_numv b
   | Div => is_numv a && is_numv b && (is_floatv a || is_floatv b)
-  | FloorDiv =>
-      match is_intlike a, is_intlike b with
-      | Some x, Some y => same_sign_or_exact x y
-      | _, _ =>
-          match as_num a, as_num b with
-          | Some p, Some q => let r := (qof p / qof q)%Q in Qeq_bool (inject_Z (Qfloor r)) r
-          | _, _ => false
-          end
-      end
-  | Mod => match is_intlike a, is_intlike b with Some x, Some y => same_sign_or_exact x y | _, _ => false end
+  | FloorDiv | Mod => is_numv a && is_numv b          (* the helper templates follow Python on ints and floats *)
   | Pow | MatMult => false
   | BitAnd | BitOr | BitXor => is_intv a && is_intv b
   | LShift | RShift =>
